@@ -658,16 +658,23 @@ PPL::Polyhedron::contains_integer_point() const {
         PPL_ASSERT(c.is_inconsistent());
         return false;
       }
+      // On integer points, `g*(a.x) + b > 0' is equivalent to
+      // `a.x + ceil(b/g) - 1 >= 0' (the inhomogeneous term need not be
+      // a multiple of g, so it is not divided with the coefficients).
       Linear_Expression le(c.expression());
+      le -= inhomogeneous;
       if (homogeneous_gcd != 1) {
         le /= homogeneous_gcd;
       }
-      // Further tighten the constraint if the inhomogeneous term
-      // was integer, i.e., if `homogeneous_gcd' divides `inhomogeneous'.
-      gcd_assign(gcd, homogeneous_gcd, inhomogeneous);
-      if (gcd == homogeneous_gcd) {
-        le -= 1;
-      }
+      assign_r(rational_inhomogeneous.get_num(),
+               inhomogeneous, ROUND_NOT_NEEDED);
+      assign_r(rational_inhomogeneous.get_den(),
+               homogeneous_gcd, ROUND_NOT_NEEDED);
+      rational_inhomogeneous.canonicalize();
+      assign_r(tightened_inhomogeneous,
+               rational_inhomogeneous, ROUND_UP);
+      --tightened_inhomogeneous;
+      le += tightened_inhomogeneous;
       mip.add_constraint(le >= 0);
     }
     else {
